@@ -64,11 +64,14 @@ From UV Require Import Spec SpecProps.
    without outside damage the selection always has its artifact, so a query answers it and changes nothing *)
 Theorem C09_abstract_install_selects : forall a n, a_sel (a_install a n) = Some n.
 Proof. exact install_selects. Qed.
+Print Assumptions C09_abstract_install_selects.
 Theorem C09_abstract_other_number_keeps_selection :
   forall a x n, a_sel a = Some n -> x <> n -> a_sel (a_fall_back a x) = Some n.
 Proof. exact fall_back_other_keeps_selection. Qed.
+Print Assumptions C09_abstract_other_number_keeps_selection.
 Theorem C09_abstract_query_is_the_selection : forall a, A_sel_has a -> a_query a = (a, a_sel a).
 Proof. exact query_is_the_selection. Qed.
+Print Assumptions C09_abstract_query_is_the_selection.
 Theorem C09_abstract_selection_has_artifact_invariant :
   forall a, A_sel_has a ->
     (forall x, A_sel_has (a_fall_back a x)) /\ (forall l, A_sel_has (a_rollback a l)) /\ A_sel_has (a_start a) /\
@@ -101,11 +104,13 @@ Print Assumptions C09_abstract_ban_invariant.
 Theorem C09_abstract_fall_back_removes :
   forall a x, a_sel (a_fall_back a x) <> Some x /\ a_has (a_fall_back a x) x = false.
 Proof. exact fall_back_removes. Qed.
+Print Assumptions C09_abstract_fall_back_removes.
 Theorem C09_abstract_fall_back_target :
   forall a x, a_sel a = Some x ->
     a_sel (a_fall_back a x) =
     match a_good a with Some g => if negb (N.eqb g x) && a_has a g then Some g else None | None => None end.
 Proof. exact fall_back_target. Qed.
+Print Assumptions C09_abstract_fall_back_target.
 
 (* C18: launch start makes the handed-out patch current, success keeps it, a fall back from any number leaves what is
    running alone *)
@@ -114,3 +119,4 @@ Theorem C09_abstract_current :
   (forall a b, a_boot a = Some b -> SpecProps.a_current (a_success a) = Some b) /\
   (forall a x, a_boot (a_fall_back a x) = a_boot a).
 Proof. exact (conj start_sets_current (conj success_keeps_current fall_back_keeps_boot)). Qed.
+Print Assumptions C09_abstract_current.
